@@ -31,12 +31,12 @@ TIMEOUT = 900
 
 
 def cases(tier, seed):
-    forms = ["bare", "attr", "alias", "wrapped", "pkginit", "initroot", "chain", "pinned", "lambda", "factory", "xdeco", "nestedlocal", "prefix"]
+    forms = ["bare", "attr", "alias", "wrapped", "pkginit", "initroot", "chain", "pinned", "lambda", "factory", "xdeco", "nestedlocal", "prefix", "lrucache"]
     for form in forms:
         edges = all_edges(3, form)
         graphs = [(kinds, mask) for kinds in itertools.product(["memento", "plain"], repeat=2)
                   for mask in range(1 << len(edges))]
-        if tier == "quick" and form in ("lambda", "factory", "xdeco", "nestedlocal", "prefix"):  # quick: these forms without self-loops
+        if tier == "quick" and form in ("lambda", "factory", "xdeco", "nestedlocal", "prefix", "lrucache"):  # quick: these forms without self-loops
             loops = sum(1 << i for i, (u, v) in enumerate(edges) if u == v)
             graphs = [(kinds, mask) for kinds, mask in graphs if not mask & loops]
         for i in range(0, len(graphs), 64):
@@ -94,6 +94,8 @@ def render_small(pkg, n, kinds, edges, form):
                   "        return fn(*args, **kw)", "    return wrapper", "", "@deco_n%d" % u]
         if form == "xdeco":
             L.append("@deco")
+        if form == "lrucache" and kinds[u] != "memento":  # the plain helpers are wrapped by the standard library's cache
+            L.append("@functools.lru_cache(maxsize=None)")
         if plain_as == "lambda":  # the plain helper is a lambda bound to a module-level name
             targets = [t for (s_, t) in edges if s_ == u]
             L += ["n%d = lambda x: ((%s) if x < -1000 else x)" % (u, ", ".join("n%d(x)" % t for t in targets) + ("," if targets else "None,")), ""]
